@@ -6,7 +6,11 @@ import (
 	"fmt"
 	"hash"
 	"io"
+	"os"
+	"os/exec"
+	"strconv"
 	"strings"
+	"time"
 
 	"github.com/tormoder/fit/dyncrc16"
 
@@ -25,7 +29,7 @@ func registerC14() {
 			"(length 0..5000) x PRNG write partitions, compared with the reference (each part written through Write, io.WriteString / WriteString, WriteByte if offered, io.Copy from strings and bytes readers, or a bufio.Writer), also fed through io.Copy / io.CopyN from short-reading and data-with-EOF readers, Reset, residue and Sum(nil); distinct by string digest; family long-writes: for each of the " +
 			"65536 register states s and block offsets 0/4/8/.../28 one single Write of >= 64 bytes that drives the register to s and then feeds it s itself followed by zero bytes " +
 			"(the input on which multi-byte-at-a-time and zero-skipping implementations go wrong), compared with the reference and with a byte-wise feed; family lengths: single writes of 30 KB - 2.3 MB (and a few of 4 - 33 MiB) (from zero and non-zero starting states, workers with GOMAXPROCS=4) whose length (and whose halves, thirds, " +
-			"quarters and eighths) sit at and around multiples of 32767 - the order of x modulo the CRC polynomial, where implementations that split a write and combine partial sums wrap - plus PRNG long lengths, from PRNG starting states",
+			"quarters and eighths) sit at and around multiples of 32767 - the order of x modulo the CRC polynomial, where implementations that split a write and combine partial sums wrap - plus PRNG long lengths, from PRNG starting states; plus the same monitor (checksum, split writes, residue, Reset, every register state) built for GOOS=js GOARCH=wasm and run by node when the host has one",
 		Assume:        []string{"the bit-serial reference CRC-16/ARC (12 lines, checked against the catalogue check value 0xBB3D) is the specification"},
 		MinNontrivial: 1 << 24,
 		Families386:   []string{"streaming", "lengths"},
@@ -37,7 +41,45 @@ func registerC14() {
 			{Name: "lengths", N: func(t string) uint64 { return tierN(t, 260, 2600) }, Run: c14Lengths},
 		},
 		Exhaustive: func(string) bool { return true },
+		Main:       c14Wasm,
 	})
+}
+
+// c14Wasm runs the js/wasm build of the monitor (cmd/c14wasm) under node, if ./run could build
+// it and a node binary exists: the package compiled for a platform that is neither amd64 nor 386.
+func c14Wasm(c *lib.Ctx) {
+	wasm, js, node := os.Getenv("VERIF_C14_WASM"), os.Getenv("VERIF_WASM_EXEC_JS"), os.Getenv("VERIF_NODE")
+	if wasm == "" || js == "" || node == "" {
+		c.Count("wasm_pass_not_possible_on_this_host", 1)
+		return
+	}
+	cmd := exec.Command(node, js, wasm)
+	cmd.Env = append(os.Environ(), "GOMAXPROCS=1")
+	done := make(chan struct{})
+	var out []byte
+	var err error
+	go func() { out, err = cmd.CombinedOutput(); close(done) }()
+	select {
+	case <-done:
+	case <-time.After(10 * time.Minute):
+		cmd.Process.Kill()
+		c.Count("wasm_pass_timed_out", 1)
+		return
+	}
+	s := strings.TrimSpace(string(out))
+	c.Eval()
+	switch {
+	case strings.HasPrefix(s, "OK "):
+		n, _ := strconv.Atoi(strings.TrimPrefix(s, "OK "))
+		c.Count("cases_checked_in_the_js_wasm_build", int64(n))
+		c.NontrivialN(int64(n))
+	case strings.Contains(s, "BAD "):
+		c.Violation([]byte(s), "the package built for GOOS=js GOARCH=wasm and run by node: %s", s[strings.Index(s, "BAD "):])
+	default:
+		// node could not run the program (missing features, out of memory ...): not a verdict
+		c.Count("wasm_pass_not_possible_on_this_host", 1)
+		_ = err
+	}
 }
 
 // c14Transitions: idx selects the high byte of the state; all 256 low bytes x 256 inputs.
